@@ -25,11 +25,15 @@ SEEDS = [
     "start: !'a' x 'q'\nx: 'a' | 'b'?\n",
 ]
 
-PRELUDE = g2c.HEADER + """From Pegen Require Import Analysis.Visitor Analysis.Nullable Analysis.FirstSets.
+PRELUDE = g2c.HEADER + """From Pegen Require Import Analysis.Visitor Analysis.Nullable Analysis.FirstSets Analysis.FirstPure Proofs.VisitorSim Proofs.NullableProofs.
 Require Import Tables.
 Definition fs_sorted (l : list (string * sset)) : list (string * list string) :=
   map (fun k => (k, match assoc_s k l with Some s => sort_set s | None => [] end)) (sort_set (map fst l)).
 """
+CLOSED = ("fun c => let rs := rules (fst c) in match compute_nullables nullable_tbl iter_fields_tbl rs with "
+          "| Some st => let F := fun n => mem_str n (n_rules st) in "
+          "let T := fun n => match assoc_s n (snd c) with Some s => s | None => [] end in "
+          "closed_b rs T (pv_item nullable_tbl (pleaf rs F)) && lk_rules rs | None => false end")
 OK = ("fun c => match first_sets nullable_tbl iter_fields_tbl (rules (fst c)) with "
       "| Some l => list_eqb (pair_eqb String.eqb strs_eqb) (fs_sorted l) (snd c) | None => false end")
 
@@ -125,6 +129,12 @@ def run(chk: common.Check, tier: str):
     if failing is not None:
         chk.oblige(f"correspondence K-first: Analysis/FirstSets.v agrees with FirstSetCalculator.calculate() on "
                    f"{len(cases)} grammars", not failing, json.dumps([descs[i] for i in failing[:3]]))
+    failing = common.run_cases(chk, "closed", PRELUDE, "grammar * list (string * list string)", cases, CLOSED, shard=200)
+    if failing is not None:
+        chk.oblige(f"instance conditions of C19_first_token_sound on {len(cases)} grammars of the class: the table computed by "
+                   "the real FirstSetCalculator is closed under the FIRST equations (Analysis/FirstPure.v, evaluated with the "
+                   "nullable flags of the analysis) and the grammar is in the class (lookahead operands single tokens)",
+                   not failing, json.dumps([descs[i] for i in failing[:3]]))
     # ---- the property on the implementation (brute force over enumerated inputs)
     results = common.run_parsers(jobs, chunk=10)
     for (text, fs), job, res in zip(meta, jobs, results):
